@@ -170,17 +170,18 @@ def sign_class(ev):
     return ev.get("op")
 
 
-def sign_family(ctx):
-    drv = build_driver(ctx)
-    trace = os.path.join(ctx.work, "sign.ndjson")
-    vtrace = os.path.join(ctx.work, "sign_verify.ndjson")
-    out = run_driver(ctx, drv, "sign", trace, extra=["-aux", vtrace])
-    ctx.log("driver:", out.strip())
+def sign_family(ctx, configs=("default",)):
     mism = []
-    if os.path.getsize(trace) > 0:
-        mism += validate_trace(ctx, "TraceSign.tla", "TraceSign.cfg", trace, classify=sign_class)
-    if os.path.getsize(vtrace) > 0:
-        mism += validate_trace(ctx, "TraceVerify.tla", "TraceVerify.cfg", vtrace, classify=sign_class)
+    for cfgname in configs:
+        drv = build_driver(ctx, cfgname)
+        trace = os.path.join(ctx.work, "sign_%s.ndjson" % cfgname)
+        vtrace = os.path.join(ctx.work, "sign_verify_%s.ndjson" % cfgname)
+        out = run_driver(ctx, drv, "sign", trace, extra=["-aux", vtrace], config=cfgname)
+        ctx.log("driver[%s]:" % cfgname, out.strip())
+        if os.path.getsize(trace) > 0:
+            mism += validate_trace(ctx, "TraceSign.tla", "TraceSign.cfg", trace, classify=sign_class)
+        if os.path.getsize(vtrace) > 0:
+            mism += validate_trace(ctx, "TraceVerify.tla", "TraceVerify.cfg", vtrace, classify=sign_class)
     report_mismatches(ctx, mism)
 
 
@@ -191,7 +192,7 @@ SIGN_ASSUME = ASSUME_COMMON + ["the two base-point multiples of a sign event ([a
 @check("C02")
 def c02(ctx):
     model_check(ctx, "MCOptions.tla", "MCOptions.cfg")
-    sign_family(ctx)
+    sign_family(ctx, list(vlib.CONFIGS) if ctx.thorough else ("default", "force32bit"))
     finish(ctx, "seeds (all-zero, all-ones, random) x variant/context pairs (pure; ctx 1,2,16,254,255; ph 0,1,16,255) x message lengths (0,1,111,112,127,128,129,300; thorough: 4096, 1 MiB) "
            "signed through every entry point twice with a counting entropy reader; each event validated by TLC against SignSpec.tla (clamp, reductions mod L, S, dom2 bytes, determinism, "
            "entropy untouched, equality with crypto/ed25519); class = (variant, context length, message length, seed kind)", SIGN_ASSUME)
@@ -200,7 +201,7 @@ def c02(ctx):
 @check("C03")
 def c03(ctx):
     model_check(ctx, "MCVerify.tla", "MCVerify_quick.cfg")   # includes HonestAccepted: S = r + h a is accepted in both modes
-    sign_family(ctx)
+    sign_family(ctx, list(vlib.CONFIGS) if ctx.thorough else ("default", "force32bit"))
     finish(ctx, "every signature produced by the sign driver is verified by Verify, VerifyWithOptions (default and ZIP-215) and as a member of batches of size 1,3,4,5,64,65,129 "
            "(every member position), each verdict validated by TLC through the Verify pipeline with the signer's coordinates (a, r); sign events additionally require S < L, a != 0, r != 0", SIGN_ASSUME)
 
